@@ -58,6 +58,8 @@ def scenarios(tier):
     s.append(Scenario('single_file', base + ['/p/in'], [(['/p/in'], None)], [], [], []))
     s.append(Scenario('linked_file_in_input_dir', base + ['/p/src', '/p/src/l', '/t'], [(['/p/src'], None)], [], [], [], links={'/p/src/l': '/t'}))
     s.append(Scenario('overlapping_resources', base + ['/p/d', '/p/d/f'], [(['/p/d'], None), (['/p/d/f', '/p/d'], None)], [], [(['/p/d/f'], None)], []))
+    # the same command reaches the input twice (declared by the target and inherited again through a producer's output)
+    s.append(Scenario('same_command_declared_and_inherited', base + ['/p/in'], [(['/p/in'], None)], [('c', '/p'), ('c', '/p')], [], []))
     # a declared path nested under another declared path of another resource, the outer one filtered, the inner one not
     s.append(Scenario('unfiltered_path_nested_under_filtered', base + ['/p/src', '/p/src/a.rs', '/p/src/gen', '/p/src/gen/s.json'],
                       [(['/p/src'], ['.rs']), (['/p/src/gen'], None)], [], [], []))
